@@ -47,9 +47,49 @@ func Seed(s int64) { rngMu.Lock(); rng = rand.New(rand.NewSource(s)); rngMu.Unlo
 // SetYield sets the per-mille probability that a goroutine yields / sleeps briefly at a hook.
 func SetYield(permille int) { atomic.StoreInt32(&yieldP, int32(permille)) }
 
+// Observe registers fn for every hook call one of whose ids starts with prefix
+// (runs use ids prefixed with their run number). Returns a function that removes it.
+func Observe(prefix string, fn func(point string, ids []string)) func() {
+	obsMu.Lock()
+	observe[prefix] = fn
+	atomic.StoreInt32(&nobs, int32(len(observe)))
+	obsMu.Unlock()
+	return func() {
+		obsMu.Lock()
+		delete(observe, prefix)
+		atomic.StoreInt32(&nobs, int32(len(observe)))
+		obsMu.Unlock()
+	}
+}
+
+var nobs int32
+
+func runPrefix(id string) string {
+	// ids look like "r<run>-..." ; the prefix is everything up to and including the first '-'
+	for i := 0; i < len(id); i++ {
+		if id[i] == '-' {
+			return id[:i+1]
+		}
+	}
+	return ""
+}
+
 func handle(point string, ids ...string) {
 	c, _ := counts.LoadOrStore(point, new(int64))
 	atomic.AddInt64(c.(*int64), 1)
+	if atomic.LoadInt32(&nobs) > 0 {
+		for _, x := range ids {
+			if p := runPrefix(x); p != "" {
+				obsMu.RLock()
+				fn := observe[p]
+				obsMu.RUnlock()
+				if fn != nil {
+					fn(point, ids)
+				}
+				break
+			}
+		}
+	}
 	id := ""
 	if len(ids) > 0 {
 		id = ids[0]
